@@ -1048,8 +1048,10 @@ class WalletTransaction(Transaction):
                        DbTransactionOutput.spent.is_(True), DbTransaction.wallet_id == self.hdwallet.wallet_id).all()
             for u in prev_utxos:
                 # Check if output is spent in another transaction
-                if session.query(DbTransactionInput).filter(DbTransactionInput.transaction_id ==
-                                                            inp.transaction_id).first():
+                if not session.query(DbTransactionInput).join(DbTransaction).filter(
+                        DbTransactionInput.prev_txid == inp.prev_txid, DbTransactionInput.output_n == inp.output_n,
+                        DbTransactionInput.transaction_id != inp.transaction_id,
+                        DbTransaction.wallet_id == self.hdwallet.wallet_id).first():
                     u.spent = False
         session.query(DbTransactionInput).filter_by(transaction_id=tx.id).delete()
         qr = session.query(DbKey).filter_by(latest_txid=txid)
